@@ -42,6 +42,8 @@ def st_case(draw):
             # prior fit on the same object with that parameter merely fixed (the request then differs in the
             # expression only)
             "tie": draw(st.sampled_from([None, None, None, "contact_point", "baseline"])),
+            # the expression is a product (f*E) or a sum of two terms (a + b*E)
+            "tie_form": draw(st.sampled_from(["product", "sum"])),
             "prior_fixed": draw(st.booleans())}
     if src["kind"] == "synth" and draw(st.integers(0, 5)) == 0:
         # a record with three segments (approach / pause / retract): any of them may be fitted
@@ -75,7 +77,7 @@ def setup_params(idnt, case):
     return pi
 
 
-def tie_param(pi, name):
+def tie_param(pi, name, form="product"):
     """constrain `name` by an expression in the modulus that evaluates to its current value; returns
     (prior parameter set with `name` fixed instead, factor) or (None, None) if not applicable"""
     import copy as _copy
@@ -89,9 +91,13 @@ def tie_param(pi, name):
     prior[name].set(vary=False)
     pi[ekey].set(vary=True)
     prior[ekey].set(vary=True)
+    if form == "sum":
+        a, b = 0.6 * v, 0.4 * v / e0
+        pi[name].set(expr="%r + %r*%s" % (a, b, ekey))
+        return prior, (a, b)
     factor = v / e0
     pi[name].set(expr="%r * %s" % (factor, ekey))
-    return prior, factor
+    return prior, (0.0, factor)
 
 
 def expected_fit(model_key, pf, xk, k):
@@ -115,7 +121,7 @@ def check_case(case, ctx):
     pi = setup_params(idnt, case)
     tie_factor = prior = None
     if case["init"].get("tie") and cfg["model_key"] != "verif_expr":
-        prior, tie_factor = tie_param(pi, case["init"]["tie"])
+        prior, tie_factor = tie_param(pi, case["init"]["tie"], case["init"].get("tie_form", "product"))
     init_state = fitgen.pstate(pi)
     kw = fitgen.fit_kwargs(idnt, cfg, params_initial=pi)
     if prior is not None and case["init"].get("prior_fixed"):
@@ -192,10 +198,11 @@ def check_case(case, ctx):
     if tie_factor is not None:
         name = case["init"]["tie"]
         ek = "E_S" if "E_S" in pf else "E"
-        want = tie_factor * pf[ek].value
-        ctx.check(abs(pf[name].value - want) <= 1e-9 * abs(want) + 1e-30, "expression-violated",
+        want = tie_factor[0] + tie_factor[1] * pf[ek].value
+        ctx.check(abs(pf[name].value - want) <= 1e-9 * (abs(tie_factor[0]) + abs(tie_factor[1] * pf[ek].value)) + 1e-30,
+                  "expression-violated",
                   dict(desc, param=name, prior_fit=bool(case["init"].get("prior_fixed"))),
-                  f"{name}={pf[name].value!r} but its expression {tie_factor!r}*{ek} gives {want!r}")
+                  f"{name}={pf[name].value!r} but its expression {tie_factor[0]!r} + {tie_factor[1]!r}*{ek} gives {want!r}")
     if cfg["model_key"] == "verif_expr":
         ctx.check(abs(pf["E2"].value - 2 * pf["E"].value) <= 1e-12 * abs(pf["E"].value), "expression-violated", desc,
                   f"E2={pf['E2'].value!r} != 2*E={2 * pf['E'].value!r}")
